@@ -206,6 +206,9 @@ def strip_generics(name):
     return out
 
 
+VARIANT_INDEX = {'None': 0, 'Some': 1, 'Ok': 0, 'Err': 1}
+
+
 class Path:
     def __init__(self):
         self.pc = []          # z3 Bool conditions
@@ -397,6 +400,8 @@ class Interp:
             v = self.place(m.group(1), p)
             if isinstance(v, Adt) and v.path.startswith('variant:'):
                 return ('disc-of-adt', v)
+            if isinstance(v, Adt) and v.path.split('::')[-1] in VARIANT_INDEX and ('Option' in v.path or 'Result' in v.path):
+                return z3.IntVal(VARIANT_INDEX[v.path.split('::')[-1]])     # constructed Option / Result value
             n = self.name_of(v)
             if n is None:
                 raise MirError('discriminant of ' + repr(v))
@@ -420,6 +425,8 @@ class Interp:
         if re.match(r'(copy|move|const|no_retag) ', t):
             return self.operand(t, p)
         # ADT constructors:  Path::Variant(args) | Path::Variant | Path { f: v, .. }
+        if '::<(' in t and not t.startswith('{'):
+            t = strip_generics(t)          # tuple types inside the generic arguments would be read as the argument list
         m = re.fullmatch(r'([\w:<>, &\'\[\]]+?)\((.*)\)', t)
         if m and '::' in m.group(1):
             return Adt(strip_generics(m.group(1)), [self.operand(x, p) for x in split_top(m.group(2))])
@@ -436,8 +443,8 @@ class Interp:
         return self.seq
 
     # ---- execution ---------------------------------------------------------------------------------
-    def run(self, max_paths=256):
-        p0 = Path()
+    def run(self, max_paths=256, path=None):
+        p0 = path or Path()
         self._run('bb0', p0, 0, max_paths)
         return self.paths
 
